@@ -75,6 +75,7 @@ type c09Scn struct {
 	annoKind         int // 0 none 1 resources 2 reservedCPUs(+resources) 3 garbage
 	annoC, annoM     int64
 	annoCPUs         int
+	annoPolicy       int // applyPolicy of the reservation annotation: 0 absent 1 "" 2 Default 3 ReservedCPUsOnly 4 unknown string
 	sysC, sysM       int64
 	sysExtra         bool
 	hasUpd           bool
@@ -155,7 +156,7 @@ func c09Build(s *c09Scn) (*configuration.ColocationStrategy, *corev1.Node, *core
 			nr.ReservedCPUs = fmt.Sprintf("0-%d", s.annoCPUs-1)
 		}
 		b, _ := json.Marshal(nr)
-		node.Annotations = map[string]string{extension.AnnotationNodeReservation: string(b)}
+		node.Annotations = map[string]string{extension.AnnotationNodeReservation: c09ApplyPolicy(string(b), s.annoPolicy)}
 	case 3:
 		node.Annotations = map[string]string{extension.AnnotationNodeReservation: "{not json"}
 	}
@@ -247,6 +248,22 @@ func (p *c09Pod) req() (int64, int64) {
 		m += c09P0(x[1])
 	}
 	return c, m
+}
+
+// c09ApplyPolicy writes the applyPolicy key into a marshalled reservation annotation.  The policy says how the SCHEDULER
+// treats the reservation (trim allocatable or only exclude the cpus); the slo-controller's batch / mid formulas subtract
+// the declared amounts under every policy (annoProj does not look at it).
+var c09ApplyPolicies = []string{"", "", "Default", "ReservedCPUsOnly", "SomethingElse"}
+
+func c09ApplyPolicy(js string, policy int) string {
+	if policy <= 0 || len(js) < 2 || js[len(js)-1] != '}' {
+		return js
+	}
+	sep := ","
+	if js == "{}" {
+		sep = ""
+	}
+	return js[:len(js)-1] + sep + fmt.Sprintf("%q:%q}", "applyPolicy", c09ApplyPolicies[policy])
 }
 
 func (s *c09Scn) annoProj() (int64, int64) {
@@ -773,6 +790,7 @@ func c09Gen(r *vRand) *c09Scn {
 	s.annoKind = []int{0, 0, 0, 1, 1, 2, 3}[r.Intn(7)]
 	s.annoC, s.annoM = c09Amount(r, cpuHi/8), c09Amount(r, memHi/8)
 	s.annoCPUs = r.Range(1, 8)
+	s.annoPolicy = []int{0, 0, 1, 2, 3, 3, 3, 4}[r.Intn(8)]
 	s.sysC, s.sysM = c09Amount(r, cpuHi/6), c09Amount(r, memHi/6)
 	s.sysExtra = r.Chance(1, 4)
 	s.useNil = r.Bool()
@@ -1020,6 +1038,9 @@ func TestVerifC09(t *testing.T) {
 		c09Oracle(h, s, &res)
 		h.Tag(fmt.Sprintf("pods:%d", len(s.pods)))
 		h.Tag(fmt.Sprintf("pol:%d/%d", c09EffPol(s.cpuPol), c09EffPol(s.memPol)))
+		if s.annoKind == 1 || s.annoKind == 2 {
+			h.Tag(fmt.Sprintf("reservation-anno:kind=%d,applyPolicy=%d", s.annoKind, s.annoPolicy))
+		}
 		switch {
 		case res.panicked:
 			h.Tag("out:panic")
@@ -1082,7 +1103,7 @@ func TestVerifC09(t *testing.T) {
 		h.End()
 	}
 	h.Close("one generated scenario (strategy: thresholds 0-130, 3 policies + nil/unknown, optional pct caps; node capacity/allocatable/" +
-		"reservation annotation incl. reservedCPUs and garbage; 0-6 pods with priority by label/value/QoS/kube-QoS, all phases, 1-2 containers, " +
+		"reservation annotation incl. reservedCPUs and garbage, applyPolicy absent / empty / Default / ReservedCPUsOnly / unknown; 0-6 pods with priority by label/value/QoS/kube-QoS, all phases, 1-2 containers, " +
 		"NUMA annotation; pod metrics incl. dangling and duplicate keys; host applications; fresh/stale/missing update time; NRT absent or 0-4 zones) " +
 		"followed by the same scenario with one consumption input raised; non-trivial = not degraded, >=1 active HP pod and a positive published amount; distinct by op lines")
 }
